@@ -37,5 +37,6 @@ def build(repo, findings):
     u.assume('external_body', 'resolve_value (dynamic variables) and ShellValue::is_indexed_array / is_associative_array are stubs with uninterpreted results; Shell opaque')
     u.assume('uninterp', 'ShellValue::indexed / assoc, ShellVariable::resolved')
     u.assume('stub', 'the format strings of declare -p and ${v@A} that put the letters after `declare -` are NOT verified')
+    u.rlimit = 40          # ten chained sequence equalities: some z3 seeds need more than the default budget (seed-stability run of the thorough tier)
     u.expected_min_fns = 7
     return u
